@@ -186,6 +186,17 @@ func (*BaseNode).AppendChild
   modifies n.childCount, n.firstChild, n.lastChild, bn(v).parent, bn(v).next, bn(v).prev, bn(lst(self)).next,
      bn(par(v)).childCount, bn(par(v)).firstChild, bn(par(v)).lastChild, bn(prv(v)).next, bn(nxt(v)).prev
 
+iface ast.Node.AppendChild
+  requires WF() && self != nil && recv == self && child != nil && child != self
+  updates klen(p) = apLen(p, self, child)
+  updates kid(p, i) = apKid(p, i, self, child)
+  updates kidx(w) = apIdx(w, self, child)
+  ensures WF()
+  ensures par(child) == self
+  ensures forall w addr {par(w)} :: w != child ==> par(w) == old(par(w))
+  modifies bn(self).childCount, bn(self).firstChild, bn(self).lastChild, bn(child).parent, bn(child).next, bn(child).prev, bn(lst(self)).next,
+     bn(par(child)).childCount, bn(par(child)).firstChild, bn(par(child)).lastChild, bn(prv(child)).next, bn(nxt(child)).prev
+
 // InsertBefore(self, v1, ins): ins leaves its old place; if v1 is a child of self it then sits immediately
 // before v1, otherwise (v1 nil or foreign) it is appended to self.
 macro ibPos(v1, ins)            = rmIdx(v1, ins)      // position of v1 once ins has left
